@@ -536,6 +536,8 @@ pub struct Built {
     pub classes: Vec<Cls>,
     pub insn_kinds: u32,
     pub delegate_patterns: Vec<String>,
+    /// every (pattern text, syntax configuration) handed to regex-automata by this build
+    pub delegate_log: Vec<(String, SyntaxConfig)>,
     pub prog_len: usize,
     pub max_repeat: usize,
 }
@@ -587,6 +589,11 @@ fn add_classes(dst: &mut Vec<Cls>, src: &[Cls]) {
 
 /// Build with the repository's `Regex::new_options`.  Err carries the error's Debug text.
 pub fn build(pattern: &str, casei: bool, limit: Option<usize>) -> Result<Built, String> {
+    build_sized(pattern, casei, limit, None)
+}
+
+/// `build` with explicit delegate size limits (nfa, dfa).
+pub fn build_sized(pattern: &str, casei: bool, limit: Option<usize>, sizes: Option<(usize, usize)>) -> Result<Built, String> {
     DELEGATE_LOG.with(|l| l.borrow_mut().clear());
     let mut options = RegexOptions { pattern: pattern.to_string(), ..RegexOptions::default() };
     if casei {
@@ -594,6 +601,10 @@ pub fn build(pattern: &str, casei: bool, limit: Option<usize>) -> Result<Built, 
     }
     if let Some(l) = limit {
         options.backtrack_limit = l;
+    }
+    if let Some((a, d)) = sizes {
+        options.delegate_size_limit = Some(a);
+        options.delegate_dfa_size_limit = Some(d);
     }
     let regex = match Regex::new_options(options.clone()) {
         Ok(r) => r,
@@ -667,6 +678,7 @@ pub fn build(pattern: &str, casei: bool, limit: Option<usize>) -> Result<Built, 
         classes,
         insn_kinds,
         delegate_patterns,
+        delegate_log: log.clone(),
         prog_len,
         max_repeat,
     })
